@@ -683,6 +683,9 @@ class Task:
         :param predecessors: predecessor tasks
         :param successors: successor tasks
         :param kwargs: additional task attributes
+
+        Construction is all-or-nothing: if any argument is rejected, exception is raised and the half-built task
+        is not left among children of parent (and in its WBS) or among predecessors/successors of other tasks.
         """
         self.__id = id
         self.name = name
@@ -705,17 +708,35 @@ class Task:
 
         self.min_start = min_start
 
-        if parent is not None:
-            self.parent = parent
-        if children is not None:
-            self.children = children
-        if successors:
-            self.successors = successors
-        if predecessors:
-            self.predecessors = predecessors
-
+        # Plain attributes first: they can't be affected by links, and rejected attribute must not leave a trace
         for k, v in kwargs.items():
             self.__setattr__(k, v)
+
+        # Links. Children are adopted last: the children setter checks everything before it moves the first task,
+        # so on any failure there are no adopted tasks to give back, only own links of new task to drop
+        try:
+            if parent is not None:
+                self.parent = parent
+            if successors:
+                self.successors = successors
+            if predecessors:
+                self.predecessors = predecessors
+            if children is not None:
+                self.children = children
+        except Exception:
+            self.__forget_links()
+            raise
+
+    def __forget_links(self):
+        """Rollback of failed construction: nobody refers to this task after it"""
+        self.successors = []
+        self.predecessors = []
+        holder = self.__parent
+        if holder is not None:
+            if self in holder.__children:
+                holder.__children.remove(self)
+            self.__parent = None
+        self._detach()
 
     def _attach(self, wbs: 'WBS'):
         if wbs is None:
